@@ -26,13 +26,13 @@ PID = "C20"
 
 
 # ------------------------------------------------------------------------------------------------ meshes
-def partitions(kind, nproc):
-    """list of part meshes made by the real mesher for `nproc` parts (nproc = 1: the unpartitioned mesh)"""
+def partitions(kind, nproc, mesher=None):
+    """list of part meshes made by the real mesher for `nproc` parts (nproc = 1: the unpartitioned mesh); `mesher`: reuse that Mesher instance"""
     import gmsh
     from EasyFEA import Mesher, ElemType
     from EasyFEA.Geoms import Domain, Point
 
-    m = Mesher()
+    m = mesher if mesher is not None else Mesher()
     if kind == "mixed":
         d = Domain(Point(), Point(2, 2), 1.0)
         inc = Domain(Point(0.5, 0.5), Point(1.5, 1.5), 0.5, isFilled=True)
@@ -371,7 +371,50 @@ def job_merge(cfg):
     return res
 
 
+def job_reuse(cfg):
+    """ONE Mesher instance splits a first mesh and then a different one into the same number of parts: the second split is the split a fresh
+    Mesher gives (reproducible, every node exactly one owner) - nothing of the first split survives in the mesher."""
+    from EasyFEA import Mesher
+
+    res = JobResult(cfg)
+    new_context()
+    facade.install()
+    first, second, nproc = cfg["first"], cfg["second"], cfg["nproc"]
+    key = f"one Mesher: {first} then {second}, Nproc={nproc}"
+    res.functions |= {"Mesher.__init__", "Mesher._Mesh_Get_Meshes", "Mesher.__Get_partitioned_groupElems", "Mesh._Get_mpi_owned_nodes"}
+    m = Mesher()
+    try:
+        partitions(first, nproc, mesher=m)
+        got = partitions(second, nproc, mesher=m)
+        ref = partitions(second, nproc)
+    except AssertionError as e:
+        res.held(f"{key}: partitioner refuses this part count ({str(e)[:60]})", how="ground-exact")
+        res.twin(f"{key} twin", True)
+        return res
+    glob = partitions(second, 1)[0]
+    own_g = [sorted(owned_nodes(p).tolist()) for p in got]
+    own_r = [sorted(owned_nodes(p).tolist()) for p in ref]
+    cnt = np.zeros(glob.Nn, dtype=int)
+    for s_ in own_g:
+        for n in s_:
+            if n < glob.Nn:
+                cnt[n] += 1
+    same = own_g == own_r and all(np.array_equal(np.asarray(a.coord), np.asarray(b.coord)) and all(np.array_equal(a.dict_groupElem[et].connect, b.dict_groupElem[et].connect) for et in a.dict_groupElem if et in b.dict_groupElem)
+                                  for a, b in zip(got, ref))
+    info = {"nodes_without_or_with_several_owners": np.where(cnt != 1)[0].tolist()[:10], "owned_nodes_per_part": [len(x) for x in own_g], "owned_nodes_per_part_fresh_mesher": [len(x) for x in own_r]}
+    ok1 = bool((cnt == 1).all())
+    res.record(f"{key}: every node of the second mesh has exactly one owner", Outcome("held", how="ground-exact") if ok1 else Outcome("cex", env={}, how="structure", detail=str(info)), lambda env: ((not ok1), info),
+               key=f"mesher reuse {second} node ownership")
+    res.record(f"{key}: the second split equals the split of a fresh Mesher", Outcome("held", how="ground-exact") if same else Outcome("cex", env={}, how="structure", detail=str(info)), lambda env: ((not same), info),
+               key=f"mesher reuse {second} reproducible")
+    res.twin(f"{key} twin", True)
+    res.paths = 1
+    return res
+
+
 def job(cfg):
+    if cfg.get("kind") == "reuse":
+        return job_reuse(cfg)
     return job_merge(cfg) if cfg.get("kind") == "merge" else job_partition(cfg)
 
 
@@ -390,6 +433,9 @@ def main():
             configs.append({"mesh": kind, "nproc": n, "dof_n": 1})
     configs.append({"mesh": "TRI3", "nproc": 3, "dof_n": 2})
     configs.append({"mesh": "mixed", "nproc": 3, "dof_n": 2})
+    for first, second, n in ((("TRI3", "QUAD4", 2), ("QUAD4", "TRI6", 3), ("TETRA4", "TRI3", 2)) if tier == "quick" else
+                             (("TRI3", "QUAD4", 2), ("QUAD4", "TRI6", 3), ("TETRA4", "TRI3", 2), ("mixed", "TRI3", 3), ("TRI3", "mixed", 2), ("HEXA8", "PRISM6", 2))):
+        configs.append({"kind": "reuse", "first": first, "second": second, "nproc": n})
     for case in ("coincident-edge", "disjoint", "identical", "three", "partition-roundtrip"):
         configs.append({"kind": "merge", "case": case})
     results = harness.run_jobs(job, configs)
